@@ -157,7 +157,16 @@ def micro_c08_scenario(r) -> Dict[str, Any]:
         orders.append({"op": "order", "kind": r.choice(["market", "market", "stop"]), "side": side, "pair": "BTC/USD",
                        "amount": _s(amt), "stop": _s(p0 if side == "buy" else p1), "auto_borrow": False, "auto_repay": False})
     fee = None if r.random() < 0.5 else {"pct": r.choice(["0.1", "1"]), "min": "0"}
+    base_fee = None
+    if side == "buy" and r.random() < 0.35:
+        fee, base_fee = None, r.choice(["1", "0.5", "10"])      # commission charged in the received (base) asset
+        for o in orders:
+            if r.random() < 0.6:
+                # marketable limit orders may fill partially: every unit of liquidity is contended
+                o["kind"] = "limit"
+                o["limit"] = _s(max(q(max(p0, p1) * D("1.5"), qp), unit(qp)))
     return {"class": "micro_c08", "symbols": {"BTC": bp, "USD": qp}, "pairs": [["BTC", "USD"]], "explicit_pair_info": [],
+            "base_fee_pct": base_fee, "early_lookup": r.random() < 0.3,
             "fee": fee, "liq": {"limit": _s(limit_pct), "impact": r.choice(["0", "10"])}, "lend": None,
             "max_concurrent": 50, "bars": {"BTC/USD": bars},
             "init": {"USD": _s(usd), "BTC": _s(big + small * 2) if side == "sell" else "0"},
